@@ -129,6 +129,12 @@ pub extern "C" fn rs_arcsome_u64(v: u64) -> CArcSome<u64> {
 pub extern "C" fn rs_slice_sum_u8(s: CSliceRef<u8>) -> u64 {
     s.iter().map(|x| *x as u64).sum::<u64>() * 1000 + s.len() as u64
 }
+/// a C-built {data, len} pair holding text (ASCII incl. NUL bytes): read as `&str`, the way a `&str` argument of a trait method is decoded
+#[no_mangle]
+pub extern "C" fn rs_str_digest(s: CSliceRef<u8>) -> u64 {
+    let t: &str = unsafe { s.into_str() };
+    t.bytes().fold(t.len() as u64, |a, x| a.wrapping_mul(131).wrapping_add(x as u64 + 1))
+}
 #[no_mangle]
 pub extern "C" fn rs_slice_sum_u64(s: CSliceRef<u64>) -> u64 {
     s.iter().fold(s.len() as u64, |a, x| a.wrapping_mul(31).wrapping_add(*x))
